@@ -158,8 +158,10 @@ int32_t jls_twr_run(struct jls_twr_s * self) {
                     self->quit = 1;
                     break;
                 case MSG_FLUSH:
-                    jls_wr_flush(self->wr);
-                    self->flush_processed_id = hdr.d > self->flush_processed_id ? hdr.d : self->flush_processed_id;
+                    rc = jls_wr_flush(self->wr);
+                    if (0 == rc) {
+                        self->flush_processed_id = hdr.d > self->flush_processed_id ? hdr.d : self->flush_processed_id;
+                    }  // else jls_twr_flush must not report success: it times out
                     break;
                 case MSG_USER_DATA:
                     rc = jls_wr_user_data(self->wr, hdr.h.user_data.chunk_meta, hdr.h.user_data.storage_type,
